@@ -129,6 +129,17 @@ fn run_scenario(sc: &Value, idx: usize, bin: &Path, scratch: &Path, local: bool)
     let absolute = r.bool();
     let abs_app = d.join("proj/fixture app");
     let mut cfg = gen_cfg(&mut r, if absolute { Some(&abs_app) } else { None });
+    // every third relative configuration names the fixture through a symlinked directory and "..":
+    // what that path denotes is for the OS to say (<link target>/../fixture app), not for string surgery
+    let via_link = !absolute && !local && idx % 3 == 0;
+    if via_link {
+        for s in ["elsewhere/sub", "elsewhere/fixture app/sub"] { fs::create_dir_all(d.join(s)).unwrap(); }
+        fs::write(d.join("elsewhere/fixture app/Procfile"), "web: run\n").unwrap();
+        fs::write(d.join("elsewhere/fixture app/sub/file"), "x").unwrap();
+        fs::write(d.join("elsewhere/fixture app/the-right-one"), "x").unwrap();
+        std::os::unix::fs::symlink("../elsewhere/sub", d.join("proj/via-link")).unwrap();
+        cfg["app_dir"] = json!("via-link/../fixture app");
+    }
     // local mode: the manifest directory is a buildpack crate in a Cargo workspace with a second
     // crate and a composite buildpack; buildpack references mix CurrentCrate / WorkspaceBuildpack /
     // Other and the (dependency-free) crates are really compiled and packaged
@@ -197,7 +208,10 @@ fn run_scenario(sc: &Value, idx: usize, bin: &Path, scratch: &Path, local: bool)
     // pack = "missing": no pack executable anywhere on PATH
     if script[0]["outcome"]["pack"] == "missing" { fs::remove_file(d.join("bin/pack")).unwrap(); }
     // pack = "nocopy": the fixture holds something the private copy cannot be made of
-    if script[0]["outcome"]["pack"] == "nocopy" { std::os::unix::fs::symlink("points/nowhere", d.join("proj/fixture app/dangling link")).unwrap(); }
+    if script[0]["outcome"]["pack"] == "nocopy" {
+        let true_fixture = if via_link { d.join("elsewhere/fixture app") } else { d.join("proj/fixture app") };
+        std::os::unix::fs::symlink("points/nowhere", true_fixture.join("dangling link")).unwrap();
+    }
     fs::write(d.join("state/plan.json"), json!(plan).to_string()).unwrap();
     fs::write(d.join("scenario.json"), json!({"script": script, "cfg": cfg}).to_string()).unwrap();
     let fixture_root = if local { d.join("proj/fixture app") } else { d.join("proj") };
@@ -320,15 +334,15 @@ fn run_scenario(sc: &Value, idx: usize, bin: &Path, scratch: &Path, local: bool)
                         let mut we = want_env.clone(); we.sort();
                         if got_env != we { p17.push(format!("pack build: env {got_env:?}, configured {we:?}")); }
                         let path = get("--path");
-                        let fixture = d.join("proj/fixture app").to_string_lossy().to_string();
+                        let fixture = if via_link { d.join("elsewhere/fixture app") } else { d.join("proj/fixture app") }.to_string_lossy().to_string();
                         let first_build = cmds.iter().all(|c| c["cmd"] != "pack-build");
                         let preproc = script[0]["outcome"]["preproc"] == true && first_build;
                         if path.len() != 1 { p17.push(format!("pack build: --path given {} times", path.len())); }
-                        else if !preproc && path[0] != fixture { p17.push(format!("pack build: app path {:?}, configured fixture {fixture:?}", path[0])); }
+                        else if !preproc && fs::canonicalize(&path[0]).ok() != fs::canonicalize(&fixture).ok() { p17.push(format!("pack build: app path {:?} is not the configured fixture {fixture:?}", path[0])); }
                         else if preproc {
                             let listing: Vec<String> = e["path_listing"].as_array().map(|a| a.iter().map(|x| x.as_str().unwrap().to_string()).collect()).unwrap_or_default();
-                            if path[0] == fixture { p17.push("pack build: a preprocessor is configured but the fixture itself was passed as app path".into()); }
-                            else if !(listing.contains(&"added-by-preprocessor".to_string()) && listing.contains(&"sub".to_string()) && !listing.contains(&"Procfile".to_string())) { p17.push(format!("pack build: the private app copy does not carry the preprocessor's changes: {listing:?}")); }
+                            if fs::canonicalize(&path[0]).ok() == fs::canonicalize(&fixture).ok() { p17.push("pack build: a preprocessor is configured but the fixture itself was passed as app path".into()); }
+                            else if !(listing.contains(&"added-by-preprocessor".to_string()) && listing.contains(&"sub".to_string()) && !listing.contains(&"Procfile".to_string()) && (!via_link || listing.contains(&"the-right-one".to_string()))) { p17.push(format!("pack build: the private app copy does not carry the preprocessor's changes: {listing:?}")); }
                         }
                         let _ = flags;
                         argv_events.push(json!({"kind": "pack-build", "argv": argv.iter().map(|a| tok(a)).collect::<Vec<_>>(),
